@@ -39,7 +39,7 @@ fn gen_vec(rng: &mut Rng) -> (Vec<String>, bool, bool) {
                 if k == "--exec-path" || k == "--list-cmds" { wf = false; }
             }
             7 => { let m = rng.pick(META).to_string(); if m == "--exec-path" { wf = false; } v.push(m); meta += 1; }
-            8 => { v.push(rng.pick(UNKNOWN).to_string()); wf = false; }
+            8 => { v.push(if rng.chance(1, 4) { String::new() } else { rng.pick(UNKNOWN).to_string() }); wf = false; }
             _ => { v.push("--".to_string()); wf = false; }
         }
     }
